@@ -329,6 +329,15 @@ def r4_simple_laws(ctx):
         add = [c_ for c_ in calls_in(f.node) if isinstance(c_.func, ast.Attribute) and c_.func.attr == "add_charge_array"]
         ok = len(add) == 1 and add[0].args and norm(expand(f, add[0].args[0])).startswith("apply_qe(")
         ctx.check(ok, f.qual + "#deposit", "the converted charge is added to the charge bucket" if ok else "converted charge is not added to the charge bucket", where=f, node=add[0] if add else f.node)
+        # "exactly efficiency times photons when sampling is off": the model's own `binomial_sampling` switch (and the
+        # photon array of THIS detector) reach apply_qe - not a default taken on the way through a shared helper
+        if calls and "binomial_sampling" in f.params:
+            bs = kw(calls[0], "binomial_sampling")
+            okb = bs is not None and dotted(expand(f, bs)) == "binomial_sampling" and not local_defs(f, "binomial_sampling")
+            ctx.check(okb, f.qual + "#sampling-switch", "apply_qe receives the model's binomial_sampling argument" if okb else f"apply_qe is called with binomial_sampling={norm(expand(f, bs)) if bs is not None else 'its default'} instead of the model's own argument: with sampling switched off the charge is still a random draw, not qe * photons", where=f, node=calls[0])
+            arr = kw(calls[0], "array") or (calls[0].args[0] if calls[0].args else None)
+            oka = arr is not None and norm(expand(f, arr)) in ("detector.photon.array", "detector.photon.array_2d", "np.asarray(detector.photon.array)", "photon_2d") or (arr is not None and "detector.photon" in norm(expand(f, arr)))
+            ctx.check(oka, f.qual + "#photons", "the photons converted are the detector's photon bucket" if oka else f"apply_qe converts `{norm(expand(f, arr))[:50] if arr is not None else None}` instead of the detector's photons", where=f, node=calls[0])
 
 
 def _norm_kernel(txt: str, trap: str, trap_idx: str) -> str:
